@@ -184,6 +184,12 @@ func VerifC13_TextRoundTrip() {
 		`S1F3 <L <B 0x?F> <BOOLEAN T ~>>.`,
 		`S6F11 <U1 ~>.`,
 		`S1F1 <A '?' "q">.`,
+		`S1F1 <A "\?">.`,                   // an escape inside a quoted run
+		`S1F1 <A[1..3] "a" 0x~2>.`,          // size range, quoted run + numeric token
+		`'S1F1' W <L[2] <A "?"> <L>>.`,      // quoted stream/function, size hint, nested empty list
+		"S1F1 /* c */ <A ~0> // t\n.",       // comments, decimal character token
+		`S9F~ <B 0x0~ 17>.`,                 // function code digit, binary tokens
+		`S1F1 <I1 -~> .`,                    // signed one-digit value
 	}
 	text := c14Fill(ts[vsymChoose(len(ts))])
 	msgs, err := ParseStrict(text)
